@@ -56,6 +56,29 @@ Represented == pc = "apply" => \A s \in Syms : nexp[s] + wexp[s] = 0
 OverlapOfUnnormalised == pc = "apply" => oexp = ZeroV
 NormsAreProductOfFactors == pc = "apply" => \A s \in Syms : nexp[s] = (IF s < k THEN 1 ELSE 0)
 
+(***************************************************************************)
+(* RunningMean: driver.fp_afqmc accumulates, per block index, the running   *)
+(* weighted mean over trajectories with                                    *)
+(*      W' = W + w ;  m' = m + w (e - m) / W'                              *)
+(* Theorem (checked for all short integer sequences): after any sequence   *)
+(* the accumulator equals sum w e / sum w.  Rationals as <<num, den>>.     *)
+(***************************************************************************)
+RECURSIVE Gcd(_, _)
+Gcd(a, b) == IF b = 0 THEN a ELSE Gcd(b, a % b)
+AbsI(x) == IF x < 0 THEN -x ELSE x
+Norm(n, d) == IF n = 0 THEN <<0, 1>> ELSE LET g == Gcd(AbsI(n), d) IN <<n \div g, d \div g>>
+\* one accumulation step on (W, m = <<mn, md>>)
+Accumulate(W, m, w, e) == LET W2 == W + w IN <<W2, Norm(m[1] * W2 + w * (e * m[2] - m[1]), m[2] * W2)>>
+RECURSIVE RunAcc(_, _, _)
+RunAcc(ws, es, j) == IF j = 0 THEN <<0, <<0, 1>>>> ELSE LET p == RunAcc(ws, es, j - 1) IN Accumulate(p[1], p[2], ws[j], es[j])
+RECURSIVE SumWE(_, _, _)
+SumWE(ws, es, j) == IF j = 0 THEN 0 ELSE SumWE(ws, es, j - 1) + ws[j] * es[j]
+RECURSIVE SumW(_, _)
+SumW(ws, j) == IF j = 0 THEN 0 ELSE SumW(ws, j - 1) + ws[j]
+RunningMeanIsWeightedMean ==
+  \A n \in 1..3 : \A ws \in [1..n -> 1..3], es \in [1..n -> -2..2] :
+     RunAcc(ws, es, n)[2] = Norm(SumWE(ws, es, n), SumW(ws, n))
+
 \* exponents as rationals <<num, den>>: n_up * 1/(2 n_up) + n_dn * 1/(2 n_dn) = 1 for all electron counts
 SpinConstants == \A nu \in 1..4, nd \in 1..4 : nu * 2 * nd + nd * 2 * nu = 2 * nu * 2 * nd
 =============================================================================
